@@ -75,7 +75,7 @@ def refName : ExcRef → String
 def wrapperAll : List Wrapper :=
   Method.all.map Wrapper.outer ++
   [.knownArgs, .pathOwn, .links, .getDefaults, .defaultPaths, .validate, .required, .lcpm, .checkValueKey, .envList,
-   .checkType, .checkTypeLoad, .vocPath, .anyLoad, .leafLoad, .annotated, .registered, .enumLookup, .typeImport,
+   .checkType, .checkTypeLoad, .vocPath, .anyLoad, .leafLoad, .annotated, .registered, .enumLookup, .typeImport, .floatConv,
    .unionTry, .subclassBranch, .callableBranch, .anyClasses, .dictKwargsLoad, .discard, .applyConfigPath,
    .applyConfigStr, .configLoad, .helpImport, .yamlLoad]
 
